@@ -168,6 +168,26 @@ ax("lshr_of_zero", "w v", Op("lshr", L("w", "v"), x), L("w", "v"), cond="v == 0"
 ax("ashr_of_zero", "w v", Op("ashr", L("w", "v"), x), L("w", "v"), cond="v == 0")
 ax("add_self_as_shl", "w", Op("add", x, x), Op("shl", x, L("w", 1)), cond="w >= 2")
 
+# second batch (after benign round 2: `a == !a -> false`, `ite(c, c, b) -> c | b` failed for want of these)
+ax("eq_not_self_l", "w", Op("eq", Op("not", x), x), L(1, 0), cond="w >= 1")
+ax("eq_not_self_r", "w", Op("eq", x, Op("not", x)), L(1, 0), cond="w >= 1")
+ax("ite_cond_then", "", Op("ite", c1, c1, q), Op("or", c1, q))
+ax("ite_cond_else", "", Op("ite", c1, p, c1), Op("and", c1, p))
+ax("ite_ncond_then", "", Op("ite", c1, Op("not", c1), q), Op("and", Op("not", c1), q))
+ax("ite_ncond_else", "", Op("ite", c1, p, Op("not", c1)), Op("or", Op("not", c1), p))
+ax("and_absorb_not", "w", Op("and", x, Op("or", Op("not", x), y)), Op("and", x, y))
+ax("or_absorb_not", "w", Op("or", x, Op("and", Op("not", x), y)), Op("or", x, y))
+ax("and_idem_nested", "w", Op("and", x, Op("and", x, y)), Op("and", x, y))
+ax("or_idem_nested", "w", Op("or", x, Op("or", x, y)), Op("or", x, y))
+ax("add_not_self", "w", Op("add", x, Op("not", x)), L("w", "v_ones(w)"))
+ax("ugt_zero_r", "w v", Op("ugt", x, L("w", "v")), Op("not", Op("eq", x, L("w", "v"))), cond="v == 0")
+ax("uge_zero_l", "w v", Op("uge", L("w", "v"), x), Op("eq", x, L("w", "v")), cond="v == 0")
+ax("ugt_ones_l", "w v", Op("ugt", L("w", "v"), x), Op("not", Op("eq", x, L("w", "v"))), cond="v == v_ones(w)")
+ax("not_uge", "w", Op("not", Op("uge", x, y)), Op("ugt", y, x))
+ax("not_ugt", "w", Op("not", Op("ugt", x, y)), Op("uge", y, x))
+ax("not_sge", "w", Op("not", Op("sge", x, y)), Op("sgt", y, x))
+ax("not_sgt", "w", Op("not", Op("sgt", x, y)), Op("sge", y, x))
+
 # ---------------------------------------------------------------------------------- literal folding (definitions of v_*)
 for op in ("and", "or", "xor", "add", "sub", "mul", "shl", "lshr", "ashr"):
     ax(f"fold_{op}", "w", Op(op, L("w", a), L("w", b)), L("w", VOp(f"v_{op}", "w", a, b)), vals="a b", kind="definition")
